@@ -28,7 +28,7 @@ CHECKS = {
     "C01": seq(["TestC01"]),
     "C02": seq(["TestC02Seq", "TestC02Race", "TestC02Contend"], per_test={"TestC02Race": SCRIPT, "TestC02Contend": (4, 25, 16, 600)}),
     "C03": seq(["TestC03"], qchecks=150, tchecks=3000, qshards=8),
-    "C04": seq(["TestC04Clock", "TestC04Bucket", "TestC04Reopen"], per_test={"TestC04Clock": (2, 3000, 8, 200000), "TestC04Reopen": (4, 40, 16, 1500)}),
+    "C04": seq(["TestC04Clock", "TestC04Bucket", "TestC04Reopen", "TestC04Race"], per_test={"TestC04Race": (4, 120, 16, 3000), "TestC04Clock": (2, 3000, 8, 200000), "TestC04Reopen": (4, 40, 16, 1500)}),
     "C05": seq(["TestC05"]),
     "C06": seq(["TestC06"]),
     "C07": seq(["TestC07"]),
@@ -40,7 +40,7 @@ CHECKS = {
     "C13": seq(["TestC13", "TestC13Race"], qchecks=400, tchecks=4000, qshards=4),
     "C14": seq(["TestC14", "TestC14Window"], qchecks=1, tchecks=6, qshards=4, per_test={"TestC14Window": (3, 3, 9, 12)}),
     "C15": seq(["TestC15"], qchecks=20, tchecks=400, qshards=8),
-    "C17": seq(["TestC17"]),
+    "C17": seq(["TestC17", "TestC17Race"], per_test={"TestC17Race": (4, 120, 16, 3000)}),
     "C18": seq(["TestC18Seq", "TestC18Race"], qchecks=400, per_test={"TestC18Race": SCRIPT}),
     "C19": seq(["TestC19"]),
     "C20": seq(["TestC20"], qchecks=3, tchecks=40, qshards=6),
